@@ -26,6 +26,10 @@ type c15File struct {
 type C15Case struct {
 	Files []c15File
 	Argv  [][]string // one or more invocations run in sequence (histories)
+	// Stdout: what gxz's standard output is. "" a pipe; "file" a regular file; "devnull" the
+	// character device /dev/null (not a terminal; what is written there cannot be compared).
+	// Single invocations for which the model expects output on stdout are run in all three ways.
+	Stdout string `json:",omitempty"`
 }
 
 func init() {
@@ -518,9 +522,33 @@ func c15Case(r *core.Run, p C15Case, gxz string) {
 		cmd.Dir = dir
 		var so, se bytes.Buffer
 		cmd.Stdout, cmd.Stderr = &so, &se
+		var outFile *os.File
+		switch p.Stdout {
+		case "file":
+			outFile, err = os.CreateTemp("", "verif-c15-stdout-")
+			if err != nil {
+				panic(err)
+			}
+			cmd.Stdout = outFile
+		case "devnull":
+			outFile, err = os.OpenFile("/dev/null", os.O_WRONLY, 0)
+			if err != nil {
+				panic(err)
+			}
+			cmd.Stdout = outFile
+		}
 		cmd.Stdin = nil
 		cmd.SysProcAttr = &syscall.SysProcAttr{}
 		runErr := cmd.Run()
+		if outFile != nil {
+			if p.Stdout == "file" {
+				b, _ := os.ReadFile(outFile.Name())
+				so.Write(b)
+				os.Remove(outFile.Name())
+			}
+			outFile.Close()
+			desc += " [stdout: " + p.Stdout + "]"
+		}
 		exit := 0
 		if runErr != nil {
 			if ee, ok := runErr.(*exec.ExitError); ok {
@@ -530,6 +558,9 @@ func c15Case(r *core.Run, p C15Case, gxz string) {
 			}
 		}
 		site := "gxz argv " + c15ArgClass(argv)
+		if p.Stdout != "" {
+			site += " stdout=" + p.Stdout
+		}
 		if amb {
 			site = "gxz argv file-name-parses-as-option-value"
 		}
@@ -584,7 +615,15 @@ func c15Case(r *core.Run, p C15Case, gxz string) {
 			}
 		}
 		// stdout
-		if len(wantOut) > 0 || so.Len() > 0 {
+		if p.Stdout == "" && len(p.Argv) == 1 && len(wantOut) > 0 && !amb {
+			// the same invocation with a regular file and with /dev/null as standard output
+			for _, k := range []string{"file", "devnull"} {
+				q := p
+				q.Stdout = k
+				defer c15Case(r, q, gxz)
+			}
+		}
+		if p.Stdout != "devnull" && (len(wantOut) > 0 || so.Len() > 0) {
 			var wantPlain []byte
 			fm := ""
 			partial := false
